@@ -53,6 +53,14 @@ def scalar_schemas():
         out.append({"type": "string", **kw})
     out += [{"type": "boolean"}, {"type": "null"}, {"type": "boolean", "const": True}]
     out += NOTYPE
+    # keywords whose value is falsy are constraints like any other
+    out += [{"const": False}, {"type": "boolean", "const": False}, {"const": 0}, {"type": "integer", "const": 0}, {"const": ""},
+            {"type": "string", "const": ""}, {"enum": [0]}, {"enum": [False, ""]}, {"type": "integer", "maximum": 0},
+            {"type": "number", "exclusiveMaximum": 0}, {"type": "string", "maxLength": 0}, {"maxLength": 0},
+            {"type": "array", "maxItems": 0}, {"type": "array", "items": {"const": False}},
+            {"type": "object", "properties": {"a": {"const": False}}, "required": ["a"]},
+            {"anyOf": [{"const": False}, {"type": "string", "maxLength": 0}]},
+            {"type": "object", "maxProperties": 0}, {"type": "object", "properties": {"a": {"type": "integer"}}, "maxProperties": 0}]
     return out
 
 
